@@ -5,7 +5,7 @@ use std::{
 
 use regex::Regex;
 
-use crate::{errors::{Result, XcpError}, config::{Config, Backup}};
+use crate::{errors::{Result, XcpError}, config::{Config, Backup}, paths};
 
 const BAK_PATTTERN: &str = r"^\~(\d+)\~$";
 static BAK_REGEX: OnceLock<Regex> = OnceLock::new();
@@ -28,10 +28,10 @@ pub(crate) fn get_backup_path(file: &Path) -> Result<PathBuf> {
 pub(crate) fn needs_backup(file: &Path, conf: &Config) -> Result<bool> {
     let need = match conf.backup {
         Backup::None => false,
-        Backup::Auto if file.exists() => {
+        Backup::Auto if paths::exists(file)? => {
             has_backup(file)?
         }
-        Backup::Numbered if file.exists() => true,
+        Backup::Numbered if paths::exists(file)? => true,
         _ => false,
     };
     Ok(need)
